@@ -47,6 +47,11 @@ CHECKS = {
     note='Trusted: z3, symx executor, the atom axioms (listed in evidence; a model that does not replay on the real code is reported as a harness error, never as a violation).',
     technique='symbolic execution with transcendental atoms + two-copy monotonicity queries in z3 (nonlinear real arithmetic)',
     design='2/C19'),
+ 'C17': dict(
+    text='Bounded SMT validity checking: conversions.py and the transliterated conversions_x.pyx executed symbolically; inverse pairs, Kepler III, compiled==interpreted (including embedded constants) and the validation domains decided by z3; the OrbitBase setters executed on a duck-typed orbit with an arbitrary prior state: one update through each of six routes leaves (a, n, P) Kepler-consistent (inductive step for any update sequence).',
+    note='Trusted: z3, symx executor, cube-root/sqrt atoms with defining equations, pi as bounded symbol, world objects reduced to masses.',
+    technique='symbolic execution (Python + transliterated Cython + extracted methods) + z3 nonlinear real arithmetic; one inductive step from an arbitrary state',
+    design='2/C17'),
 }
 NOT_YET = {}
 ALL = ['C%02d' % i for i in range(1, 21)]
